@@ -171,7 +171,35 @@ class NumSem(_Counting):
         return ["START", ast]
 
 
-def builder_kwargs(spec_b):
+TD_MODULES = {"calc": ["ModelBase", "Num"], "text": ["ModelBase", "Word"], "word": ["Word"], "pair": ["Pair", "Num"]}
+BH_KINDS = {"B1": "config", "B2": "constructors", "B3": "config"}  # objects the caller keeps and passes again
+
+
+def _td_module(name):
+    """A module of node classes as written by to_python_model(): every such module defines `ModelBase`."""
+    import types
+
+    from tatsu.objectmodel import Node
+
+    key = "tdmod:" + name
+    if key not in _BUILDER_NS:
+        mod = types.ModuleType(name + "_model")
+        for cn in TD_MODULES[name]:
+            setattr(mod, cn, type(cn, (Node,), {"__module__": mod.__name__}))
+        _BUILDER_NS[key] = mod
+    return _BUILDER_NS[key]
+
+
+def canon_builder_obj(obj):
+    def nm(x):
+        return f"{getattr(x, '__module__', '?')}.{getattr(x, '__qualname__', getattr(x, '__name__', repr(type(x))))}"
+
+    if isinstance(obj, list):
+        return {"list": [nm(x) for x in obj]}
+    return {"basetype": nm(obj.basetype), "synthok": obj.synthok, "typedefs": [nm(t) for t in obj.typedefs], "constructors": [nm(c) for c in obj.constructors]}
+
+
+def builder_kwargs(spec_b, H=None):
     """Caller-provided model-builder options (compile/parse keyword arguments) from their JSON description."""
     if not spec_b:
         return {}
@@ -207,12 +235,28 @@ def builder_kwargs(spec_b):
         from tatsu.objectmodel.builder import BuilderConfig
 
         kw["builderconfig"] = BuilderConfig(basetype=ns[spec_b["builderconfig"]])
+    if "tdmod" in spec_b:
+        kw["typedefs"] = [_td_module(spec_b["tdmod"])]
+    if "bh" in spec_b:
+        # one BuilderConfig object / one constructors list that the application creates once and passes to many calls
+        from tatsu.objectmodel.builder import BuilderConfig
+
+        key = "bld:" + spec_b["bh"]
+        store = H if H is not None else {}
+        if key not in store:
+            store[key] = ("bld", BuilderConfig() if BH_KINDS[spec_b["bh"]] == "config" else [])
+        obj = store[key][1]
+        kw["builderconfig" if BH_KINDS[spec_b["bh"]] == "config" else "constructors"] = obj
     return kw
 
 
 _BUILDER_NS: dict = {}
 BUILDER_POOL = [{"basetype": "MyBase"}, {"basetype": "OtherBase"}, {"constructors": ["Num"]}, {"constructors": ["Num", "Word"]},
-                {"typedefs": ["Num", "Word"]}, {"synthok": False}, {"builderconfig": "MyBase"}, {"basetype": "MyBase", "synthok": False}]
+                {"typedefs": ["Num", "Word"]}, {"synthok": False}, {"builderconfig": "MyBase"}, {"basetype": "MyBase", "synthok": False},
+                {"tdmod": "calc"}, {"tdmod": "word"}, {"bh": "B1"}, {"bh": "B1", "tdmod": "calc"}, {"bh": "B2", "tdmod": "text"}]
+# the options of a history about ONE application-wide builder configuration (see gen_builder_history)
+BH_POOL = [{"bh": "B1"}, {"bh": "B1", "tdmod": "calc"}, {"bh": "B1", "tdmod": "text"}, {"bh": "B1", "tdmod": "word"}, {"bh": "B1", "tdmod": "pair"},
+           {"bh": "B2"}, {"bh": "B2", "tdmod": "calc"}, {"bh": "B2", "tdmod": "word"}, {"bh": "B2", "tdmod": "text"}, {"tdmod": "calc"}, {"tdmod": "text"}]
 
 
 class EqSem(_Counting):
@@ -561,6 +605,9 @@ def exec_op(op, H, probes=None):
         else:
             cfg_obj = ParserConfig(**op["cfg"])  # the caller's own object: built before any fault can strike
         cfg_before = canon_config(cfg_obj)
+    bkw = builder_kwargs(op.get("builder"), H) if kind in ("compile", "parse") else {}
+    bld_obj = bkw.get("builderconfig", bkw.get("constructors")) if (op.get("builder") or {}).get("bh") else None
+    bld_before = canon_builder_obj(bld_obj) if bld_obj is not None else None
 
     def call():
         if kind == "compile":
@@ -571,7 +618,7 @@ def exec_op(op, H, probes=None):
                 kw["semantics"] = sem
             if cfg_obj is not None:
                 kw["config"] = cfg_obj
-            kw.update(builder_kwargs(op.get("builder")))
+            kw.update(bkw)
             m = tatsu.compile(GRAMMARS[op["g"]], **kw)
             H[op["out"]] = ("model", m)
             return {"model": dump_model(m)}
@@ -581,7 +628,7 @@ def exec_op(op, H, probes=None):
                 kw["asmodel"] = True
             if sem is not None:
                 kw["semantics"] = sem
-            kw.update(builder_kwargs(op.get("builder")))
+            kw.update(bkw)
             return {"value": canon(tatsu.parse(GRAMMARS[op["g"]], op["text"], **kw))}
         if kind in ("mparse", "pparse"):
             ent = H.get(op["h"])
@@ -662,6 +709,10 @@ def exec_op(op, H, probes=None):
         after = canon_config(cfg_obj)
         if after != cfg_before:
             res = {"config_mutated": [k for k in after if after[k] != cfg_before.get(k)], "res": res}
+    if bld_obj is not None:
+        after = canon_builder_obj(bld_obj)
+        if after != bld_before:
+            res = {"config_mutated": ["builder:" + k for k in after if after[k] != bld_before.get(k)], "res": res}
     return res
 
 
@@ -672,7 +723,7 @@ def compile_(src, filename):
 def dump_handles(H):
     out = {}
     for h, (k, obj) in H.items():
-        if k in ("sem", "cfg"):
+        if k in ("sem", "cfg", "bld"):
             continue
         try:
             out[h] = dump_model(obj) if k == "model" else dump_parser(obj)
@@ -1156,6 +1207,37 @@ def gen_pair_history(rng, handles):
     return out
 
 
+def gen_builder_history(rng, handles):
+    """An application that creates ONE BuilderConfig object (or one list of constructors) and passes it to every call,
+    with per-call modules of node classes (typedefs) whose class names overlap: what one call leaves in the caller's
+    object is what the next call is given."""
+    fam = ["typed", "typed_b", "typed_c", "typed_d", "params"]
+    bh = rng.choice(["B1", "B1", "B2"])
+    pool = [b for b in BH_POOL if b.get("bh", bh) == bh]
+    ops = []
+    for _ in range(rng.choice([2, 3, 4, 5, 7])):
+        g = rng.choice(fam)
+        b = dict(rng.choice(pool))
+        models = [h for h, c in handles.items() if c["op"] == "compile"]
+        r = rng.random()
+        if models and r < 0.3:
+            h = rng.choice(models)
+            gg = handles[h]["g"]
+            ops.append({"op": "mparse", "h": h, "g": gg, "text": rng.choice([GOOD_INPUT[gg], rng.choice(INPUTS[gg])])})
+        elif r < 0.65:
+            op = {"op": "compile", "g": g, "name": rng.choice([None, None, "P"]), "asmodel": rng.random() < 0.3, "sem": "none", "settings": {}, "builder": b}
+            _HCTR[0] += 1
+            op["out"] = f"m{_HCTR[0]}"
+            handles[op["out"]] = op
+            ops.append(op)
+            if rng.random() < 0.6:
+                ops.append({"op": "mparse", "h": op["out"], "g": g, "text": GOOD_INPUT[g]})
+        else:
+            ops.append({"op": "parse", "g": g, "text": rng.choice([GOOD_INPUT[g], rng.choice(INPUTS[g])]), "name": rng.choice([None, None, "P"]),
+                        "asmodel": rng.random() < 0.3, "sem": "none", "settings": {}, "builder": b})
+    return ops
+
+
 def gen_spec(seed: int, mode: str | None = None) -> dict:
     rng = random.Random(derive(seed, "spec"))
     bug = random.Random(derive(seed, "buggify"))
@@ -1164,6 +1246,8 @@ def gen_spec(seed: int, mode: str | None = None) -> dict:
     _HCTR[0] = 0
     if mode == "history":
         handles = {}
+        if rng.random() < 0.08:
+            return {"property": PROP, "mode": "history", "ops": gen_builder_history(rng, handles)}
         if rng.random() < 0.5:
             return {"property": PROP, "mode": "history", "ops": gen_pair_history(rng, handles)}
         focus = rng.choice(FAMILIES) if rng.random() < 0.4 else None
@@ -1186,12 +1270,24 @@ def gen_spec(seed: int, mode: str | None = None) -> dict:
         h = rng.choice(list(handles))
         prefix.append({"op": "mparse", "h": h, "g": handles[h]["g"], "text": rng.choice(INPUTS[handles[h]["g"]])})
     threads = []
+    # several threads that each obtain "their" model lazily, with the very same compile() call, while the cache is cold
+    same = None
+    if rng.random() < 0.4:
+        gs = rng.choice(["typed", "typed_c", "typed_b", "params", "ref", "choice", "kw", "nums"])
+        same = {"op": "compile", "g": gs, "name": rng.choice(NAMES), "asmodel": rng.random() < 0.7, "sem": "none", "settings": rng.choice([{}, {}, {"parseinfo": True}])}
     for _ in range(rng.choice([2, 2, 3, 4])):
         calls = []
+        th = dict(handles)  # what this thread can use: the shared models and what it compiled itself
+        if same is not None and rng.random() < 0.85:
+            op = dict(same)
+            op["out"] = f"t{len(threads)}_s"
+            th[op["out"]] = op
+            calls.append(op)
+            calls.append({"op": "mparse", "h": op["out"], "g": same["g"], "text": rng.choice([GOOD_INPUT[same["g"]], rng.choice(INPUTS[same["g"]])])})
         for _ in range(rng.choice([1, 1, 2, 3])):
             if rng.random() < 0.8:
-                h = rng.choice(list(handles))
-                gg = handles[h]["g"]
+                h = rng.choice(list(th))
+                gg = th[h]["g"]
                 call = {"op": "mparse", "h": h, "g": gg, "text": rng.choice(INPUTS[gg])}
                 k = rng.random()
                 if k < 0.15:
@@ -1200,24 +1296,40 @@ def gen_spec(seed: int, mode: str | None = None) -> dict:
                     call["sem"] = rng.choice(["id", "tag", "num", "eq", "fa", "fb", "fc"])
                 elif k < 0.4:
                     call["settings"] = rng.choice(CALL_SETTINGS)
-                elif k < 0.5 and not handles[h].get("asmodel"):
+                elif k < 0.5 and not th[h].get("asmodel"):
                     call["asmodel"] = True
                 calls.append(call)
             else:
-                hs = dict(handles)
+                hs = dict(th)
                 op = gen_call(rng, hs, models_only=True, allow_fault=False)
                 if op["op"] == "compile":
                     op = dict(op)
                     op["out"] = f"t{len(threads)}_{len(calls)}"
+                    th[op["out"]] = op
                 if op["op"] in ("drop",):
                     continue
                 calls.append(op)
         threads.append(calls)
-    return {"property": PROP, "mode": "threads", "prefix": prefix, "threads": threads,
+    # staggered arrival: a thread may start later — after so many lines executed by the others, or ("hot") at an instant
+    # when another thread is inside one of the functions that touch shared state (check-then-act windows are a few lines wide)
+    arrive = [0] * len(threads)
+    staggered = rng.random() < (0.85 if same is not None else 0.3)
+    if staggered:
+        late = rng.sample(range(len(threads)), k=rng.randrange(1, len(threads)))
+        for ti in late:
+            if rng.random() < 0.65:
+                # arrives when another thread executes its n-th line inside a function of that name
+                fn = "compile" if (same is not None and rng.random() < 0.85) else rng.choice(sorted(HOT))
+                arrive[ti] = {"fn": fn, "nth": rng.randrange(1, 48) if rng.random() < 0.7 else int(10 ** rng.uniform(0, 2.5))}
+            else:
+                arrive[ti] = int(10 ** rng.uniform(1, 4.5))
+    return {"property": PROP, "mode": "threads", "prefix": prefix, "threads": threads, "arrive": arrive,
             # NOTE granularity "opcode" is implemented but not generated: CPython 3.12.1 calls a NULL c_tracefunc
             # (legacy_tracing.c:217, SIGSEGV) when a trace function raises (RecursionError at the recursion limit) while
             # per-instruction events are enabled on a code object
-            "knobs": {"granularity": "line", "mean_gap": bug.choice([5, 20, 200, 2000]), "hot_boost": 10}}
+            # a late thread has to get through a whole call while the other one is parked a few lines further on:
+            # staggered runs lean towards long time slices
+            "knobs": {"granularity": "line", "mean_gap": bug.choice([20, 200, 2000, 2000, 5000] if staggered else [5, 20, 200, 2000]), "hot_boost": 10}}
 
 
 # ------------------------------------------------------------------------------- running (in a forked child)
@@ -1267,6 +1379,8 @@ def exec_threads(spec, decider):
     mean = knobs["mean_gap"] * (4 if opcode else 1)
     results = [[None] * len(calls) for calls in spec["threads"]]
     sites = []
+    waiting_hot = []  # tasks parked until another thread is inside a hot function
+    arrived = set()
 
     def make_task(ti, calls):
         st = {"left": 1 + sim.choose("gap", 2 * mean), "depth": 0}
@@ -1275,6 +1389,22 @@ def exec_threads(spec, decider):
             if event == "return":
                 st["depth"] -= 1
             elif event == ("opcode" if opcode else "line"):
+                sim.now_ns += 1  # virtual time of a thread run = lines executed
+                if waiting_hot and st["depth"] < 250:
+                    name = frame.f_code.co_name
+                    for w in waiting_hot:
+                        if w[1] == name:
+                            w[2] -= 1
+                            if w[2] <= 0:
+                                waiting_hot.remove(w)
+                                # the late thread arrives now — and runs now — while this one is in the middle of that function
+                                sim.probe("thread_arrived_while_other_in_hot_function")
+                                st["left"] = 1 + sim.choose("gap", 2 * mean)
+                                w[0].state = "runnable"
+                                arrived.add(w[0])
+                                sim.steps += 1
+                                sim._switch_to(sim.me(), w[0])
+                                return local
                 st["left"] -= 1
                 # no switch when the traced code is deep in (runaway) recursion: the scheduler's own frames
                 # must never be the ones that hit the recursion limit
@@ -1299,10 +1429,14 @@ def exec_threads(spec, decider):
 
         def body():
             Hl = dict(H)  # handles are shared objects; the dict itself is per thread
+            for w in list(waiting_hot):
+                if w[0] is sim.me():
+                    waiting_hot.remove(w)  # woken because nobody else could run
             sys.settrace(glob)
             try:
                 for ci, op in enumerate(calls):
-                    sim.yield_point("op")
+                    if not (ci == 0 and sim.me() in arrived):
+                        sim.yield_point("op")
                     results[ti][ci] = exec_op(op, Hl, probes)
             finally:
                 sys.settrace(None)
@@ -1310,7 +1444,14 @@ def exec_threads(spec, decider):
         return body
 
     for ti, calls in enumerate(spec["threads"]):
-        sim.spawn(f"t{ti}", make_task(ti, calls))
+        t = sim.spawn(f"t{ti}", make_task(ti, calls))
+        arr = (spec.get("arrive") or [0] * (ti + 1))[ti]
+        if isinstance(arr, dict):
+            # parked from the start: until another thread executes that line, or until nobody else can run
+            t.state, t.wake = "sleeping", 10 ** 12
+            waiting_hot.append([t, arr["fn"], arr["nth"]])
+        elif arr:
+            t.state, t.wake = "sleeping", arr
     # runaway recursion in the code under test must end as RecursionError, as it does on the main thread,
     # not as a C stack overflow of a thread with the default 8 MiB stack (traced frames are deep)
     threading.stack_size(512 * 1024 * 1024)
@@ -1568,6 +1709,8 @@ def shrink_candidates(spec: dict):
             if len(spec["threads"]) > 2:
                 s = copy.deepcopy(spec)
                 del s["threads"][ti]
+                if s.get("arrive"):
+                    del s["arrive"][ti]
                 yield s
             for ci in range(len(spec["threads"][ti])):
                 if len(spec["threads"][ti]) > 1:
@@ -1584,6 +1727,11 @@ def shrink_candidates(spec: dict):
             s = copy.deepcopy(spec)
             s["knobs"]["granularity"] = "line"
             yield s
+        for ti, a in enumerate(spec.get("arrive") or []):
+            if a:
+                s = copy.deepcopy(spec)
+                s["arrive"][ti] = 0
+                yield s
 
 
 def spec_size(spec: dict) -> int:
